@@ -70,8 +70,8 @@ def unval(x):
 
 def make_func(sig, name='kf', strret=False, method=False):
     """def kf(<sig>): record an evaluation and return a token describing the binding received
-    (method=True: def kf(self, <sig>), to be placed in a class body)"""
-    params = ['self'] if method else []
+    (method=True: def kf(self, <sig>), to be placed in a class body; method='this': the instance parameter is called this)"""
+    params = [method if isinstance(method, str) else 'self'] if method else []
     for n, p in enumerate(sig['pos']):
         params.append(p['n'] + ('=%r' % val(p['d']) if p['hd'] else ''))
         if p.get('po') and not (n + 1 < len(sig['pos']) and sig['pos'][n + 1].get('po')):
@@ -239,9 +239,18 @@ def run_group(klepto, group, km, mode, variant=None, cache=None):
         func = functools.partial(func, **pkw)
         raw = functools.partial(raw, **pkw)
         src += 'functools.partial(kf, k=1)'
-    if kind == 'method':
-        mfunc, msrc = make_func(group['sig'], method=True)
-        ign_m = ('self',) + (ignore if isinstance(ignore, tuple) else (ignore,))
+    if kind == 'callable':
+        # an instance whose class defines __call__(self, <sig>), decorated as it is (signature() inspects its __call__)
+        cfunc, csrc = make_func(group['sig'], name='__call__', method=True)
+        Obj = type('Obj', (object,), {'__call__': cfunc})
+        func = Obj()
+        rfunc, _ = make_func(group['sig'], name='__call__', method=True)
+        raw = type('Obj', (object,), {'__call__': rfunc})()
+        src = 'class Obj: ' + csrc + 'kf = Obj()'
+    if kind in ('method', 'method0'):
+        # method0: the instance parameter is called `this` and is ignored by its INDEX 0
+        mfunc, msrc = make_func(group['sig'], method='this' if kind == 'method0' else True)
+        ign_m = ((0,) if kind == 'method0' else ('self',)) + (ignore if isinstance(ignore, tuple) else (ignore,))
         ns = {}
         mod = klepto.safe if mode == 'safe' else klepto
         deco = mod.inf_cache(keymap=keymap, ignore=ign_m) if cached else klepto.keygen(*ign_m, keymap=keymap)
